@@ -34,7 +34,8 @@ THEOREMS = ["C15_comparator_sound", "C15_print_parse", "C15_decline_safe", "C15_
             "C15_partial_pairs_decline", "C15_shortcut_writes", "C15_remap_field_only", "C15_metadata_start",
             "C15_remap_scoped_base_only", "C15_remap_scoped_no_divider", "C15_remap_note_scoped",
             "C15_remap_base_only", "C15_remap_note_base_only", "C15_remap_unscoped_refuted", "C15_meta_header",
-            "C15_meta_root_refuted", "C15_meta_no_exit_refuted", "C15_nonvacuous"]
+            "C15_meta_root_refuted", "C15_meta_no_exit_refuted", "C15_replay_copy_only_when_empty",
+            "C15_replay_narrow_refuted", "C15_nonvacuous"]
 CLAIM = {
     "text": "Partial proof + system-level differential oracle. Proved (closed, all byte strings): the comparator's "
             "scanning loop answers `match` on a printed diff-tree output iff no pair has a record (and the pathspec-"
@@ -79,7 +80,7 @@ CMP_TRUE_LINE = "compared tracked blobs for"
 TRACKED_POOL = ["a.txt", "src/b.rs", "c d.py", "dir é/ü n.txt", "日本 語.md", "x[1].txt", '"base_commit_sha":"x".txt']
 OTHER_POOL = ["o.txt", "up/other file.txt"]
 
-KINDS = ["rebase_fire", "cherry_fire", "rebase_untracked_only", "cherry_untracked_only",
+KINDS = ["rebase_conflict", "cherry_conflict", "rebase_fire", "cherry_fire", "rebase_untracked_only", "cherry_untracked_only",
          "rebase_tracked_upstream", "cherry_tracked_upstream", "rebase_exec_k"]
 
 EXEC_EDITOR = r'''
@@ -275,6 +276,14 @@ def secs_sx(secs):
 
 
 # ------------------------------------------------------------------ scenario
+def _odd_text(w, r, author):
+    """a unique line text that shares no word with World's vocabulary"""
+    w.counter += 1
+    t = f"Z{w.counter}" + "".join(r.pick("ghjkmnpqrstuvwyz") for _ in range(10))
+    w.author_of[t] = author
+    return t
+
+
 def _fresh_files(r, w, names):
     return {n: "".join(w.fresh("H") + "\n" for _ in range(r.range(5, 8))) for n in names}
 
@@ -305,11 +314,11 @@ def _lines_at(sim, sha, path):
     return t.split("\n")[:-1] if t.endswith("\n") else t.split("\n")
 
 
-def _hunks(sim, sha, path):
-    """[(old_start, old_count, new_start, new_count)] of `git diff -U0 sha~1 sha -- path`; hunk bodies are skipped by
-    their counts, never pattern-matched"""
+def _hunks(sim, sha, path, old=None):
+    """[(old_start, old_count, new_start, new_count)] of `git diff -U0 <old or sha~1> sha -- path`; hunk bodies are
+    skipped by their counts, never pattern-matched"""
     import re
-    rc, out, _ = sim.realgit("diff", "-U0", "--no-color", "--no-renames", "--no-ext-diff", sha + "~1", sha, "--", path)
+    rc, out, _ = sim.realgit("diff", "-U0", "--no-color", "--no-renames", "--no-ext-diff", old or (sha + "~1"), sha, "--", path)
     if rc != 0:
         return []
     lines, k, res = out.split("\n"), 0, []
@@ -374,7 +383,20 @@ def scenario(args):
         base_tree = simA.realgit("rev-parse", "HEAD^{tree}")[1].strip()
         # ---- feature branch
         w.git("switch", "-q", "-c", "feature")
+        conflict = kind.endswith("_conflict")
+        if conflict:
+            ncom = 1
         for k in range(ncom):
+            if conflict:
+                # the agent appends 2-6 lines to one tracked file (upstream will append there too)
+                s_ = r.pick(SESSIONS)
+                w.op_edit(actor=s_, path=tracked[0], region="bottom", kinds=("ins",))
+                w.op_edit(actor=s_, path=tracked[0], region="bottom", kinds=("ins",))
+                if opts.get("extra"):
+                    w.op_edit(actor=r.pick(SESSIONS), path=tracked[1], region="bottom", kinds=("ins",))
+                w.op_edit(actor="H", path=r.pick(others), region="bottom", kinds=("ins",))
+                w.op_commit()
+                continue
             did_ai = False
             for _ in range(r.range(1, 3)):
                 actor = r.pick(SESSIONS + SESSIONS + ["H"])
@@ -403,8 +425,14 @@ def scenario(args):
             return res
         # ---- upstream
         w.git("switch", "-q", "main")
-        for _ in range(r.range(1, 2)):
-            if kind.endswith("tracked_upstream"):
+        for _ in range(1 if conflict else r.range(1, 2)):
+            if conflict:
+                # upstream appends lines of its own to the same file (texts share no word with the agent's lines: the
+                # replay matches similar lines, known class K5)
+                ups = [_odd_text(w, r, "H") for _ in range(r.range(1, 2))]
+                w.write(tracked[0], "".join(t + "\n" for t in (w.lines(tracked[0]) or []) + ups))
+                w.trace.append(("edit", "H", tracked[0], "append-unrelated"))
+            elif kind.endswith("tracked_upstream"):
                 w.op_edit(actor=r.pick(["H", "H", "s1"]), path=r.pick(touched), region="top", kinds=("ins",))
             elif untracked_only:
                 w.op_edit(actor="H", path=human_only, region="top", kinds=("ins",))
@@ -421,6 +449,18 @@ def scenario(args):
             if kind == "rebase_exec_k":
                 open(os.path.join(simA.base, "step.py"), "w").write(EXEC_STEP % r.pick(touched))
                 op = ["rebase", "-i", "main"]
+        resolved = None
+        if conflict:
+            # the person's resolution: upstream's file, then none / some / all of the agent's lines, then a line of their own
+            main_f = _lines_at(simA, "main", tracked[0])
+            agent = [t for t in _lines_at(simA, originals[-1], tracked[0]) if t not in main_f and w.author_of.get(t) in SESSIONS]
+            keep = {"none": [], "some": agent[:max(1, len(agent) // 2)], "all": agent}[opts["keep"]]
+            n_own = 1
+            if opts.get("own") == "equal":      # as many lines as the agent's block had: a same-size replacement
+                n_own = max(1, len(agent) - len(keep) - (len(main_f) - len(_lines_at(simA, base_commit, tracked[0]))))
+            own = [_odd_text(w, r, "H") for _ in range(n_own)]
+            resolved = "".join(t + "\n" for t in main_f + keep + own)
+            res["info"]["keep"] = [opts["keep"], len(keep), len(agent)]
         orig_notes = {s: _note_blob(simA, s) for s in originals}
         # ---- copy, then run the operation in both
         bname = f"s-{kind}-{idx}-B"
@@ -440,6 +480,14 @@ def scenario(args):
             if tag == "B":
                 e["GIT_AI_VERIF_NO_FAST_PATH"] = "1"
             rc, _, err = sim.git(*op, env_extra=e)
+            if conflict:
+                if rc == 0:
+                    res["info"]["skipped"] = "no conflict"
+                    return res
+                sim.write(tracked[0], resolved)
+                sim.realgit("add", "--", tracked[0])
+                rc, _, err2 = sim.git(op[0], "--continue", env_extra=e)
+                err += err2
             news = _rev_list(sim, f"{old_main}..HEAD" if is_cherry else "main..feature")
             dumps = []
             if os.path.exists(dump):
@@ -497,7 +545,7 @@ def scenario(args):
             na, nb = simA.note(sa), simB.note(sb)
             ba = _note_blob(simA, sa)
             added = hist.git_added_lines(simA, sa)
-            surviving, clean = {}, {}
+            surviving, clean, mixed_all = {}, {}, {}
             for p, ls in added.items():
                 if p not in head_lines:
                     head_lines[p] = set(_lines_at(simA, last, p))
@@ -524,9 +572,54 @@ def scenario(args):
                     if len(au) >= 2 or carried:
                         mixed |= set(range(ns, ns + nc))
                 tainted |= set(cur[j - 1] for j in mixed if 1 <= j <= len(cur))
+                mixed_all[p] = mixed
                 clean[p] = surviving[p] - mixed
                 for i in ok_ls:
                     line_class[cur[i - 1]] = "K2" if i not in surviving[p] else ("K5" if i in mixed else None)
+            # ---- content oracle on the note that was written (independent of the second run): every attested line
+            # (a) exists in the commit, (b) was added by the commit, (c) has the text that session wrote
+            if na is not None and na["ok"]:
+                replayed, multi = not A["fired"], len(A["new"]) > 1
+                orig_txt = (orig_notes.get(originals[pos_]) or b"").decode("utf-8", "replace")
+                # a note whose attestation section is the original's, byte for byte, is not a product of the replay:
+                # none of the replay's known classes can excuse what it says
+                copied = replayed and na["raw"].split("\n---\n")[0] == orig_txt.split("\n---\n")[0]
+                for p, hs in na["files"].items():
+                    cur = _lines_at(simA, sa, p)
+                    # the replay transforms the ORIGINAL commit's file into the rewritten one: a hunk of that difference
+                    # whose two sides have more than one author is coloured as a whole (K5 = C02-K3)
+                    was = _lines_at(simA, originals[pos_], p)
+                    re_mixed = set()
+                    for os_, oc, ns, nc in _hunks(simA, sa, p, old=originals[pos_]):
+                        au = set(w.author_of.get(cur[j - 1], "?") for j in range(ns, ns + nc) if 1 <= j <= len(cur))
+                        au |= set(w.author_of.get(was[j - 1], "?") for j in range(os_, os_ + oc) if 1 <= j <= len(was))
+                        if len(au) >= 2:
+                            re_mixed |= set(range(ns, ns + nc))
+                    for h, ls in hs.items():
+                        for i in ls:
+                            if not (1 <= i <= len(cur)):
+                                why, cls = "names a line beyond the end of the file", "K1"
+                            elif i not in added.get(p, ()):
+                                why, cls = "names a line the commit did not add", "K1"
+                            else:
+                                truth = w.author_of.get(cur[i - 1], "?")
+                                if truth in SESSIONS and session_hash(TOOL, truth) == h:
+                                    continue
+                                why = f"credits a line written by {truth} to session {h}"
+                                cls = "K5" if i in mixed_all.get(p, ()) else ("K2" if i not in surviving.get(p, ()) else None)
+                            if i in re_mixed:
+                                cls = "K5"
+                            # the replay's known classes excuse its own notes only (K1 only where it is cumulative)
+                            if replayed and not copied and cls is not None and (cls != "K1" or multi):
+                                res["known"].append({"class": "C15-" + cls, "position": pos_ + 1, "range": len(A["new"]),
+                                                     "via": "content"})
+                                continue
+                            res["failures"].append({"what": f"the note written for a rewritten commit {why}",
+                                                    "commit": sa, "path": p, "line": i,
+                                                    "text": cur[i - 1] if 1 <= i <= len(cur) else None,
+                                                    "shortcut_fired": A["fired"], "verbatim_copy_of_original": copied,
+                                                    "note": na["raw"],
+                                                    "original_note": (orig_notes.get(originals[pos_]) or b"").decode("utf-8", "replace")})
             c = compare_notes(na, nb, sa, added, surviving, clean)
             per_commit.append({"full": c["full"], "restricted": c["restricted"], "classes": c["classes"]})
             if A["fired"]:
@@ -639,6 +732,13 @@ def plan(tier):
     for i in range(5 if q else 100):
         items.append({"kind": "rebase_tracked_upstream"})
         items.append({"kind": "cherry_tracked_upstream"})
+    for rep in range(2 if q else 40):
+        for keep in ("none", "some", "all"):
+            items.append({"kind": "rebase_conflict", "keep": keep, "extra": rep % 2 == 1})
+            items.append({"kind": "cherry_conflict", "keep": keep, "extra": rep % 2 == 1})
+        for extra in (False, True):
+            items.append({"kind": "rebase_conflict", "keep": "none", "own": "equal", "extra": extra})
+            items.append({"kind": "cherry_conflict", "keep": "none", "own": "equal", "extra": extra})
     for rep in range(2 if q else 30):
         for n in (1, 2, 3, 4):
             for k in range(1, n + 1):
@@ -987,6 +1087,10 @@ def run(ctx):
     early = "Definition meta_early_exit : bool := true." in gen
     obligations.append(("fact: the header scan of load_commit_metadata_batch stops once the tree and the first parent are known "
                         "(GenRemap.meta_early_exit = true)", early, "" if early else "the early exit is gone"))
+    pay = all(f"Definition replay_payload_counts_prompts_{k} : bool := true." in gen for k in ("rebase", "cherry"))
+    obligations.append(("fact: the replay writes the recomputed note whenever it has attestations OR prompt records "
+                        "(GenRemap.replay_payload_counts_prompts_rebase/cherry = true)", pay,
+                        "" if pay else "the payload test no longer counts prompt records"))
     n_meta = 600 if q else 12000
     mcases, mk_hist = [], {}
     for i in range(n_meta):
@@ -1207,6 +1311,8 @@ def run(ctx):
         "full_equality_single_commit_ranges[equal,differ]": single_full,
         "full_equality_multi_commit_ranges[equal,differ]": multi_full,
         "exec_k_pairs_with_delta": exec_k_seen,
+        "hand_resolved_conflicts[kind keep: kept/agent lines]": sorted(set(
+            f"{r_['kind']} {r_['info']['keep']}" for r_ in res if "error" not in r_ and r_["info"].get("keep") and not r_["info"].get("skipped"))),
         "comparator_inputs_tied": len(cmp_cases), "shortcut_notes_tied": len(remap_cases),
         "known_class_hits": dict(known_seen),
         "correspondence_mismatches": len(mism) + len(sys_mism),
